@@ -32,14 +32,14 @@ Section CheckSound.
   Lemma corr_update_facts (c : mcase P O) :
     corr_update validate upd defaults c = true ->
     k_before c = defaults
-    /\ outcome_code (validate (k_params c)) = k_val c
+    /\ (outcome_code (validate (k_params c)) =? 0) = (k_val c =? 0)
     /\ k_after c = snd (upd (k_via c) (k_params c) (k_before c)).
   Proof.
     unfold corr_update. destruct (upd (k_via c) (k_params c) (k_before c)) as [o st] eqn:Eu.
     intros Hc. apply andb_true_iff in Hc. destruct Hc as [Hc H4].
     apply andb_true_iff in Hc. destruct Hc as [Hc H3].
     apply andb_true_iff in Hc. destruct Hc as [H1 H2].
-    apply (proj1 (eqb_true_iff _ _)) in H1. apply (proj1 (eqb_true_iff _ _)) in H4. simpl. split; [exact H1|]. split; [lia|exact H4].
+    apply (proj1 (eqb_true_iff _ _)) in H1. apply (proj1 (eqb_true_iff _ _)) in H4. simpl. split; [exact H1|]. split; [apply Bool.eqb_prop; exact H2|exact H4].
   Qed.
 
   Lemma corr_update_prop (c : mcase P O) : corr_update validate upd defaults c = true -> prop_update c = 0.
